@@ -423,6 +423,18 @@ func init() {
 				}
 			}
 		}
+		// 3. end to end (s_calldata_e2e.go): non-canonical call data in complete, owner-signed send blocks delivered to real
+		//    nodes by gossip, by publishing, inside a momentum
+		nE2E := c.N / 150
+		if nE2E > 150 {
+			nE2E = 150
+		}
+		if v, ok := c.Args["e2e"]; ok {
+			fmt.Sscan(v, &nE2E)
+		}
+		for h := 0; h < nE2E; h++ {
+			calldataE2E(c, h, methods)
+		}
 		c.Stats["calldata-methods"] = len(methods)
 		c.Stats["calldata-methods-with-accepted-case"] = len(accepted)
 	})
